@@ -84,7 +84,8 @@ def plan(tier, seed):
             [{'kind': 'long-history', 'seed': seed, 'idx': i} for i in range(40 if tier == 'quick' else 400)] +
             [{'kind': 'bad-release', 'seed': seed, 'idx': i} for i in range(24 if tier == 'quick' else 240)] +
             [{'kind': 'live', 'seed': seed, 'idx': i} for i in range(3 if tier == 'quick' else 30)] +
-            [{'kind': 'live-stalled-subscriber', 'seed': seed, 'idx': i} for i in range(1 if tier == 'quick' else 4)])
+            [{'kind': 'live-stalled-subscriber', 'seed': seed, 'idx': i} for i in range(1 if tier == 'quick' else 4)] +
+            [{'kind': 'live-stats-many-children', 'seed': seed, 'idx': i} for i in range(1 if tier == 'quick' else 3)])
 
 
 def live_stalled_subscriber(spec, res):
@@ -149,6 +150,60 @@ def live_stalled_subscriber(spec, res):
         d.cleanup()
 
 
+def live_stats_many_children(spec, res):
+    """a worker with many children (a pre-forking server): `stats` walks them all; a second client's read-only request
+    sent 50 ms later must not wait for seconds.  Decided on the best of three attempts (a loaded machine makes one
+    attempt slow, a daemon that sleeps per child makes all of them slow)"""
+    import threading
+    import time
+    from vlib import live
+    nkids = 24 + 4 * (spec['idx'] % 3)
+    d = live.Daemon('', strace=False)
+    d.ini = (d.header(check_delay=0.5) + '[watcher:pre]\ncmd = %s\nnumprocesses = 1\ngraceful_timeout = 1\n'
+             'copy_env = True\n\n' % live.worker_cmd({'log': '@LOG@', 'fork': nkids})
+             ).replace('@DIR@', d.dir).replace('@LOG@', d.logdir)
+    with open(d.ini_path, 'w') as f:
+        f.write(d.ini)
+    try:
+        d.start()
+        if not d.wait_ready(20) or not d.workers_up(1, 20):
+            res.inconclusive.append('live: daemon or the forked children not ready: ' + d.output()[-200:])
+            return
+        lat = []
+        for attempt in range(3):
+            out = {}
+
+            def first():
+                t0 = time.time()
+                out['stats'] = (d.call('stats', name='pre', timeout=30.0), time.time() - t0)
+            th = threading.Thread(target=first)
+            th.start()
+            time.sleep(0.05)
+            t1 = time.time()
+            r2 = d.call('status', name='pre', timeout=30.0)
+            lat.append(time.time() - t1)
+            th.join(40)
+            res.obs['live_stats_requests_on_a_worker_with_many_children'] += 1
+            kids_seen = [len((v or {}).get('children', [])) for v in (out.get('stats', ({},))[0].get('info') or {}).values()
+                         if isinstance(v, dict)]
+            res.hist['live_children_reported_by_stats'][max(kids_seen or [0])] += 1
+            if r2.get('status') not in ('active', 'ok'):
+                res.inconclusive.append('live: status during stats answered %r' % (r2,))
+                return
+            time.sleep(0.3)
+        res.hist['live_status_latency_during_stats_ms'][int(min(lat) * 1000) // 50 * 50] += 1
+        if min(lat) > 1.5:
+            res.violation('C05/live:read-only-request-waits-for-stats[worker-with-many-children]',
+                          'a status request sent 50 ms after a stats request on a worker with %d children was answered after '
+                          '%s s in three attempts out of three' % (nkids, ['%.2f' % x for x in lat]))
+        elif max(lat) > 1.5:
+            res.inconclusive.append('live: one status during stats took %.1fs (loaded machine?)' % max(lat))
+        res.obs['live_daemons'] += 1
+        res.nontrivial(repr(('live-stats-many-children', nkids)))
+    finally:
+        d.cleanup()
+
+
 def live_case(spec, res):
     """the same property on a real circusd with real workers: wall clock and /proc instead of the simulated kernel"""
     from vlib import livehist
@@ -170,6 +225,11 @@ def run_case(spec):
     res = CaseResult()
     if spec.get('kind') == 'live-stalled-subscriber':
         live_stalled_subscriber(spec, res)
+        for v in res.viol:
+            v['spec'] = spec
+        return res
+    if spec.get('kind') == 'live-stats-many-children':
+        live_stats_many_children(spec, res)
         for v in res.viol:
             v['spec'] = spec
         return res
